@@ -4,7 +4,7 @@
     `fix: setTombstone: return the error when renaming the sidecar fails`; effective/load =
     parseMetadata's sidecar precedence; search/list_repos/simplify = indexData.Search / List /
     simplifyMultiRepo + query.Simplify's constant folding).  Proofs: Proofs/TombstoneProofs.v. *)
-From ZV Require Import Lib.Base Model.Tombstone Proofs.TombstoneProofs.
+From ZV Require Import Lib.Base Model.Tombstone Proofs.TombstoneProofs Proofs.TombstoneLimit.
 
 (** Search returns EXACTLY the documents of alive repositories, at non-tombstoned paths, that satisfy
     the query as written — for every query (any boolean combination of arbitrary predicates on
@@ -21,6 +21,23 @@ Theorem C17_hidden_in_search : forall v q i r d,
   nth_error (v_repos v) (d_repo d) = Some r /\ r_tomb r = false /\ memN (d_file d) (r_ftombs r) = false.
 Proof. exact hidden_in_search. Qed.
 Print Assumptions C17_hidden_in_search.
+
+(** ... under EVERY SearchOptions.ShardRepoMaxMatchCount [lim] and whatever number of matches [wt] each file match
+    contributes: the limited document loop ([search_lim]: guard order repository tombstone, file tombstone, limit
+    skip; lastRepoID / repoMatchCount bookkeeping) only returns documents the unlimited search returns — tombstoned
+    repositories and paths stay hidden — and with lim = 0 it IS the unlimited search. *)
+Theorem C17_hidden_in_search_every_limit : forall v q lim wt i r d,
+  In (i, r, d) (search_lim v q lim wt) ->
+  In (i, r, d) (search v q) /\
+  nth_error (v_repos v) (d_repo d) = Some r /\ r_tomb r = false /\ memN (d_file d) (r_ftombs r) = false.
+Proof.
+  intros v q lim wt i r d H. apply search_lim_sub in H. split; [exact H|]. exact (hidden_in_search v q i r d H).
+Qed.
+Print Assumptions C17_hidden_in_search_every_limit.
+
+Theorem C17_search_limit_zero_is_search : forall v q wt, search_lim v q 0 wt = search v q.
+Proof. exact search_lim_zero. Qed.
+Print Assumptions C17_search_limit_zero_is_search.
 
 Theorem C17_hidden_in_list : forall v q r,
   In r (list_repos v q) ->
@@ -195,3 +212,13 @@ Example ex_history :
   snd (run_hist ex_fs [(2%N, true, RenameFails); (1%N, true, NoFault); (2%N, true, CreateTempFails)]) = [Err 3; Ok tt; Err 2]
   /\ option_map (map r_tomb) (effective (fst (run_hist ex_fs [(2%N, true, RenameFails); (1%N, true, NoFault); (2%N, true, CreateTempFails)]))) = Some [true; false; false].
 Proof. split; reflexivity. Qed.
+(* limits: a shard [repo 1: docs 0 1 2][repo 2 tombstoned: doc 3][repo 3: doc 4 at a tombstoned path, doc 5]; every document matches;
+   limit 1 returns the first document of repository 1 and the first VISIBLE document of repository 3, limit 2 two of repository 1 *)
+Definition ex_lim_view := mkView [mkRepo 1 1 false [] [] 10; mkRepo 2 2 true [] [] 20; mkRepo 3 3 false [7%N] [] 30]
+                                 [mkDoc 0 3 []; mkDoc 0 4 []; mkDoc 0 5 []; mkDoc 1 3 []; mkDoc 2 7 []; mkDoc 2 8 []].
+Example ex_limited :
+  map (fun x => fst (fst x)) (search_lim ex_lim_view (QConst true) 1 (fun _ => 1%N)) = [0%N; 5%N] /\
+  map (fun x => fst (fst x)) (search_lim ex_lim_view (QConst true) 2 (fun _ => 1%N)) = [0%N; 1%N; 5%N] /\
+  map (fun x => fst (fst x)) (search_lim ex_lim_view (QConst true) 2 (fun _ => 2%N)) = [0%N; 5%N] /\
+  map (fun x => fst (fst x)) (search ex_lim_view (QConst true)) = [0%N; 1%N; 2%N; 5%N].
+Proof. vm_compute. repeat split. Qed.
